@@ -27,9 +27,33 @@ def seeds():
                                                     m.get("verdict", "?"), cell(m.get("check_result", ""))[:400]))
     return "\n".join(out)
 
+def status():
+    out = []
+    ids = [json.loads(l)["id"] for l in open(os.path.join(V, "properties.jsonl"))]
+    for pid in ids:
+        pp = os.path.join(V, "tools", "props", pid + ".json")
+        if not os.path.exists(pp):
+            out.append("### %s\n\nnot built.\n" % pid); continue
+        p = json.load(open(pp))
+        ev = {}
+        ep = os.path.join(V, "evidence", pid + ".json")
+        if os.path.exists(ep):
+            ev = json.load(open(ep)).get("coverage", {})
+        hooks = []
+        hroot = os.path.join(V, "harness", "hooks", pid)
+        for root, _, files in os.walk(hroot):
+            hooks += [os.path.relpath(os.path.join(root, f), hroot) for f in files]
+        out.append("### %s\n\n* **Proved (Properties/%s.v, %s theorems):** %s\n* **Trusted / modelled rather than verified:** %s\n"
+                   "* **Last committed quick run:** %s cases (%s non-trivial), input classes %s; hooks: %s\n"
+                   % (pid, pid, ev.get("obligations", "?"), p.get("level_text", ""), p.get("level_note", ""),
+                      ev.get("evaluations", "?"), ev.get("distinct_nontrivial", "?"),
+                      ", ".join("%s=%s" % kv for kv in sorted(ev.get("input_distribution", {}).items())[:14]) or "?",
+                      ", ".join(sorted(hooks)) or "none"))
+    return "\n".join(out)
+
 def main():
     p = os.path.join(V, "DESIGN.md"); s = open(p).read()
-    for name, body in (("FINDINGS", findings()), ("SEEDS", seeds())):
+    for name, body in (("FINDINGS", findings()), ("SEEDS", seeds()), ("STATUS", status())):
         pat = re.compile(r"(<!-- BEGIN %s -->\n).*?(<!-- END %s -->)" % (name, name), re.S)
         if not pat.search(s):
             raise SystemExit("marker %s missing in DESIGN.md" % name)
